@@ -8,7 +8,7 @@ open HTree
 
 namespace Forest
 
-theorem structureCheck_some {f : Forest} {p c : Nat} (h : f.structureCheck (some p) c = true) :
+theorem fi_structureCheck_some {f : Forest} {p c : Nat} (h : f.structureCheck (some p) c = true) :
     ∃ pv cv, f.value? p = some pv ∧ (pv.isElement = true ∨ pv.isDocument = true) ∧
       (f.ancestors p).contains c = false ∧ f.value? c = some cv ∧ cv.category = .normal ∧
       cv.isDocument = false := by
@@ -87,7 +87,7 @@ theorem append_inv {f : Forest} (hi : f.Inv) (p c : Nat) : (f.append p c).1.Inv 
   split
   · exact hi
   rename_i hlast
-  obtain ⟨pv, cv, hpv, hpk, hanc, hcv, hcn, hcd⟩ := structureCheck_some (by simpa using hsc)
+  obtain ⟨pv, cv, hpv, hpk, hanc, hcv, hcn, hcd⟩ := fi_structureCheck_some (by simpa using hsc)
   obtain ⟨g, b, so⟩ := exists_sibsOut hi (mem_allHandles_of_isLive (isLive_of_value? hcv))
   rw [so.eq]
   simp only
